@@ -1,8 +1,43 @@
 import GceTcb.Base.Line
-/- Driver handler for stream `c03` (stub: replaced when the property's model lands). -/
+import GceTcb.Model.Pipeline
+import GceTcb.Gen.C03Consts
+import GceTcb.Drive.PolicyLine
+/- Driver handler for stream `c03` (sign → verify pipeline over key histories). -/
 namespace GceTcb.Drive.C03
-open GceTcb
+open GceTcb GceTcb.Policy GceTcb.Pipeline GceTcb.Drive.PolicyLine
 
-def handle (_f : Fields) : String := "unimplemented"
+def lifetimes : Lifetimes := ⟨Gen.C03Consts.rootValidDays * 86400, Gen.C03Consts.signValidDays * 86400⟩
+
+def natList (s : String) : List Nat := if s == "" then [] else (s.splitOn ",").map (fun x => x.toNat?.getD 0)
+
+def handle (f : Fields) : String :=
+  let t0 := f.nat "t0"
+  let rots := natList (f.get "rots")
+  match f.get "op" with
+  | "certs" =>
+    -- validity window of the root and of the primary certificate after each state
+    let states := (List.range (rots.length + 1)).map (fun i => history lifetimes t0 (rots.take i))
+    let root := (history lifetimes t0 []).root
+    s!"root={root.notBefore}-{root.notAfter} primary=" ++
+      ",".intercalate (states.map fun ca => s!"{ca.primary.notBefore}-{ca.primary.notAfter}")
+  | "verify" =>
+    let issued := history lifetimes t0 (rots.take (f.nat "issued"))
+    let later := history lifetimes t0 (rots.take (f.nat "state"))
+    let req : Request := ⟨[1], (if f.bool "prov" then 7 else 0), [], f.nat "ts", none, none⟩
+    let e := endorse refPrims issued req
+    let roots : Option (List Cert) :=
+      match f.get "roots" with
+      | "own" => some [later.root]
+      | "foreign" => some [⟨99, 99, later.root.notBefore, later.root.notAfter, true⟩]
+      | "empty" => some []
+      | _ => none
+    okrej (verifyEndorsement refPrims Gen.C03Consts.releaseChangeUnix e ⟨roots, f.nat "now", [], none⟩)
+  | "listed-snp" =>
+    let meas : Option Bytes := some (f.bytes "m")
+    okrej (snp (parseSev (f.get "g")) ⟨meas, f.nat "n"⟩)
+  | "listed-tdx" =>
+    okrej (tdxValidateMeasurement () () (parseRows (f.get "rows")) (f.bytes "mrtd") (none : Option (TdxPolicy Unit Unit))
+      false (f.int "ram") true)
+  | _ => "bad-op"
 
 end GceTcb.Drive.C03
